@@ -395,7 +395,8 @@ class VectorYX2D(AbstractVectorYX2D):
         Returns the magnitude of every vector which are computed as sqrt(y**2 + x**2).
         """
         return Array2D(
-            values=np.sqrt(self[:, 0] ** 2.0 + self[:, 1] ** 2.0), mask=self.mask
+            values=np.sqrt(self.slim[:, 0] ** 2.0 + self.slim[:, 1] ** 2.0),
+            mask=self.mask,
         )
 
     @property
